@@ -25,6 +25,11 @@ def log_floats(lo, hi):
 seeds32 = st.integers(0, 2 ** 32 - 1)
 
 
+def signed(lo, hi):
+    """Floats of either sign with magnitude in [lo, hi] (no zeros, no subnormals)."""
+    return st.builds(lambda neg, v: -v if neg else v, st.booleans(), floats(lo, hi))
+
+
 # ---------------------------------------------------------------------------
 # signal recipes
 # ---------------------------------------------------------------------------
@@ -50,7 +55,9 @@ def signal_recipe(draw, kinds=("noise", "sines", "chirp", "spikes", "const_noise
     if kind == "spikes":
         r["n_spikes"] = draw(st.integers(1, 6))
     if kind == "raw":
-        r["values"] = draw(st.lists(floats(-4, 4), min_size=1, max_size=24))
+        # magnitudes bounded away from zero: an all-zero component makes every ratio degenerate (0/0)
+        r["values"] = draw(st.lists(st.builds(lambda neg, v: -v if neg else v, st.booleans(), floats(1e-3, 4)),
+                                    min_size=1, max_size=24))
     r["trend"] = draw(st.sampled_from([0.0, 0.0, 0.5, -2.0]))
     if allow_burst and draw(st.booleans()):
         r["burst"] = [draw(floats(0, 1)), draw(floats(0.02, 0.3)), draw(st.sampled_from([3.0, 10.0, 50.0, 0.05]))]
@@ -167,3 +174,109 @@ def min_center_frequency(op, bw, df):
     if op in ("linear_rectangular", "linear_triangular"):
         return 1.6 * df if bw > 1.3 * df else None
     raise KeyError(op)
+
+
+# ---------------------------------------------------------------------------
+# processing specs (JSON) -> hvsrpy settings objects
+# ---------------------------------------------------------------------------
+
+FD_METHODS = ["arithmetic_mean", "squared_average", "quadratic_mean", "root_mean_square",
+              "effective_amplitude_spectrum", "geometric_mean", "total_horizontal_energy",
+              "vector_summation", "maximum_horizontal_value"]
+ALL_METHODS = FD_METHODS + ["single_azimuth", "rotdpp", "azimuthal", "diffuse_field"]
+POLICIES = ["frequency_domain_resampling", "keeping_smallest_time_step", "keeping_majority_time_step"]
+
+
+def family(method):
+    if method in ("squared_average", "quadratic_mean", "root_mean_square", "effective_amplitude_spectrum"):
+        return "squared_average"
+    if method in ("total_horizontal_energy", "vector_summation"):
+        return "total_horizontal_energy"
+    return method
+
+
+@st.composite
+def center_frequencies(draw, op, bw, df, fnyq, min_size=1, max_size=40, fmin_floor=None):
+    """Sorted distinct centre frequencies inside the band where every window is non-empty."""
+    fmin = min_center_frequency(op, bw, df)
+    if fmin is None:
+        return None
+    if fmin_floor is not None:
+        fmin = max(fmin, fmin_floor)
+    fmax = fnyq * (1 - 1e-9)
+    if op == "savitzky_and_golay":
+        fmax = fnyq - (int(bw) // 2 + 1.6) * df
+    if not fmin < fmax:
+        return None
+    kind = draw(st.sampled_from(["geom", "lin", "free", "free", "single"]))
+    if kind == "single":
+        return [draw(floats(fmin, fmax))]
+    if kind in ("geom", "lin"):
+        a = draw(floats(fmin, fmax))
+        b = draw(floats(fmin, fmax))
+        lo, hi = min(a, b), max(a, b)
+        k = draw(st.integers(max(min_size, 2), max_size))
+        if hi <= lo * (1 + 1e-6):
+            return [float(lo)]
+        vals = np.geomspace(lo, hi, k) if kind == "geom" else np.linspace(lo, hi, k)
+        return sorted(set(float(v) for v in vals))
+    vals = draw(st.lists(log_floats(fmin, fmax), min_size=min_size, max_size=max_size, unique=True))
+    return sorted(vals)
+
+
+@st.composite
+def processing_spec(draw, n_max, methods=ALL_METHODS, operators=OPERATORS, policy=None,
+                    fft_choices=(None, None, 2 ** 15, 2 ** 16, 256, 64)):
+    """JSON description of a processing configuration (without centre frequencies: the caller draws
+    them with center_frequencies() from the largest bin spacing 1/(nfft*dt_min) and the smallest Nyquist)."""
+    method = draw(st.sampled_from(methods))
+    fft_n = draw(st.sampled_from(fft_choices))
+    nfft = 2 ** 15
+    while nfft <= n_max:
+        nfft *= 2
+    if fft_n is not None:
+        nfft = max(nfft, fft_n)
+    op, bw = draw(operator_and_bandwidth(operators))
+    spec = dict(method=method, op=op, bw=bw, width=draw(st.one_of(floats(0.001, 1), st.sampled_from([0.0, 0.1, 0.2, 1.0]))),
+                fft_n=fft_n, policy=policy or draw(st.sampled_from(POLICIES)))
+    spec["_nfft"] = nfft
+    if method == "single_azimuth":
+        spec["azimuth"] = draw(st.one_of(floats(-360, 720), st.sampled_from([0.0, 45.0, 90.0, 180.0, 20.0])))
+    if method in ("rotdpp", "azimuthal"):
+        lo, hi = (0.0, 179.999) if method == "azimuthal" else (-180.0, 360.0)
+        spec["azimuths"] = draw(st.lists(st.one_of(floats(lo, hi), st.sampled_from([0.0, 30.0, 45.0, 90.0, 135.0])),
+                                         min_size=1, max_size=8, unique=True))
+        if method == "azimuthal":
+            spec["azimuths"] = sorted(spec["azimuths"])
+    if method == "rotdpp":
+        spec["percentile"] = draw(st.one_of(floats(0, 100), st.sampled_from([0.0, 50.0, 100.0])))
+    spec["fcs_as"] = draw(st.sampled_from(["list", "ndarray", "tuple"]))
+    return spec
+
+
+def make_settings(hvsrpy, spec, fcs=None):
+    """Build a fresh hvsrpy settings object from a JSON spec."""
+    fcs = spec["fcs"] if fcs is None else fcs
+    as_ = spec.get("fcs_as", "ndarray")
+    fcs_obj = np.array(fcs, dtype=float) if as_ == "ndarray" else (list(fcs) if as_ == "list" else tuple(fcs))
+    common = dict(window_type_and_width=["tukey", spec["width"]],
+                  smoothing=dict(operator=spec["op"], bandwidth=spec["bw"], center_frequencies_in_hz=fcs_obj),
+                  fft_settings=None if spec.get("fft_n") is None else {"n": int(spec["fft_n"])})
+    policy = spec.get("policy")
+    method = spec["method"]
+    if method == "azimuthal":
+        s = hvsrpy.HvsrAzimuthalProcessingSettings(azimuths_in_degrees=list(spec["azimuths"]), **common)
+    elif method == "diffuse_field":
+        s = hvsrpy.HvsrDiffuseFieldProcessingSettings(**common)
+    elif method == "psd":
+        s = hvsrpy.PsdProcessingSettings(**common)
+    elif method == "single_azimuth":
+        s = hvsrpy.HvsrTraditionalSingleAzimuthProcessingSettings(azimuth_in_degrees=spec["azimuth"], **common)
+    elif method == "rotdpp":
+        s = hvsrpy.HvsrTraditionalRotDppProcessingSettings(azimuths_in_degrees=list(spec["azimuths"]),
+                                                           ppth_percentile_for_rotdpp_computation=spec["percentile"], **common)
+    else:
+        s = hvsrpy.HvsrTraditionalProcessingSettings(method_to_combine_horizontals=method, **common)
+    if policy is not None:
+        s.handle_dissimilar_time_steps_by = policy
+    return s
